@@ -697,8 +697,11 @@ def oracle_history(case, hist, src0, steps, by_set):
         if op[0] == 'snap':
             snapM.append((set(M), copy.deepcopy(o['cbm'])) if o['res'] == 'ok' else None)
         if d:
-            res_e = edge_residue(got, expected_union(src0, gids, M2), src0, M2)
-            stale = None if res_e else diff_union(got, expected_union(src0, gids, M2, all_descriptions=True))
+            # the two known ways of falling short may occur together: judge the connection residue while accepting
+            # descriptions given by models that are not (or no longer) merged
+            exp_all = expected_union(src0, gids, M2, all_descriptions=True)
+            res_e = edge_residue(got, exp_all, src0, M2)
+            stale = None if res_e else diff_union(got, exp_all)
             if not res_e and stale is None:
                 fails.append(F4 + tag + 'an element keeps the class / plain properties given by a model that is no longer '
                              'merged: ' + d)
